@@ -13,10 +13,10 @@ run_one() { # id patch prop
   mkdir -p work/selftest; echo "$out" > work/selftest/$1.log
 }
 if [ "$what" != "seeded" ]; then
-  for f in selftest/F*-revert-*.diff; do id=$(basename $f | cut -d- -f1); run_one $id $f ${OWNER[$id]}; done
+  for f in /verif/selftest/F*-re*-*.diff; do id=$(basename $f | cut -d- -f1); run_one $id $f ${OWNER[$id]}; done
 fi
 if [ "$what" != "fixes" ]; then
-  for d in seeded/C???; do id=$(basename $d); run_one $id $d/patch.diff ${id:0:3}; done
+  for d in /verif/seeded/C???; do id=$(basename $d); run_one $id $d/patch.diff ${id:0:3}; done
 fi
 echo "selftest: detected=$pass missed=$fail"
 [ $fail -eq 0 ]
